@@ -250,8 +250,12 @@ func (g *c09Gen) wrapSite(dir string, depth int) []*mj.Node {
 func genC09(t *rapid.T) c09Case {
 	g := &c09Gen{t: t, labels: map[string]bool{}}
 	g.p = &mj.Program{Entry: "/main.jet", Vars: map[string]mj.Recipe{}}
-	d := mj.RStr("CTX")
-	g.p.Data = &d
+	if g.n(0, 3, "nilctx") > 0 {
+		d := mj.RStr("CTX")
+		g.p.Data = &d
+	} else {
+		g.labels["caller-without-context"] = true // Execute with nil data
+	}
 	dir := []string{"/", "/d1/", "/d1/d2/"}[g.n(0, 2, "dir")]
 	caller := &mj.File{Path: dir + "caller.jet"}
 	main := &mj.File{Path: "/main.jet", Body: []*mj.Node{mj.Text("<main>"), {K: "include", E: mj.Str(caller.Path)}, mj.Text("</main>")}}
